@@ -1,7 +1,7 @@
 (** C07 — Iterators are finite and a step-through yields nothing after an error.
     Pinned statements only. *)
 Require Import CF.Proofs.Tac CF.Model.Omics CF.Model.Pair CF.Model.Records CF.Model.Reader CF.Model.Sections
-  CF.Model.StepThrough CF.Proofs.OmicsFacts CF.Proofs.RecordsFacts CF.Proofs.StepFacts CF.Proofs.SectionsFacts.
+  CF.Model.StepThrough CF.Proofs.OmicsFacts CF.Proofs.RecordsFacts CF.Proofs.StepFacts CF.Proofs.SectionsFacts CF.Proofs.ReaderFacts CF.Proofs.ChunkFacts.
 
 (** Draining the section iterator over any stream of n line reads, with any budget above n+1 calls,
     ends (returns None) after at most n items - even when the caller keeps going after errors. *)
@@ -9,6 +9,13 @@ Theorem C07_sections_finite : forall rs ln fuel, (length rs + 1 < fuel)%nat ->
   exists items, sdrain fuel {| sst := InBetween; sln := ln |} rs = Val (items, true) /\ (length items <= length rs)%nat.
 Proof. exact sdrain_finite. Qed.
 Print Assumptions C07_sections_finite.
+
+(** The stream of line reads over a byte string (what lines() yields, one item each, and what sections()
+    consumes) has at most one element per input line: LF count + 1.  With the theorem above: draining the section
+    iterator over any byte string yields at most lines items, well within the property's lines + 1. *)
+Theorem C07_lines_finite : forall b, (length (raw_reads (src_of_bytes b)) <= count_lf b + 1)%nat.
+Proof. exact raw_reads_length. Qed.
+Print Assumptions C07_lines_finite.
 
 (** Draining the step-through of any section (well-formed header, arbitrary records) ends after at
     most records+1 items. *)
